@@ -12,6 +12,8 @@ scalar!(bool, |w: u64| w != 0, |x: bool| x as u64);
 impl Ou for () { fn o(&self, _: &mut Vec<u64>) {} }
 impl<T: P, const N: usize> P for [T; N] { fn p(it: &mut It) -> Self { core::array::from_fn(|_| T::p(it)) } }
 impl<T: Ou, const N: usize> Ou for [T; N] { fn o(&self, out: &mut Vec<u64>) { for x in self { x.o(out); } } }
+impl<T: P> P for Vec<T> { fn p(it: &mut It) -> Self { let n = it.w() as usize; (0..n).map(|_| T::p(it)).collect() } }
+impl<T: Ou> Ou for Vec<T> { fn o(&self, out: &mut Vec<u64>) { for x in self { x.o(out); } } }
 impl<T: Ou> Ou for Option<T> { fn o(&self, out: &mut Vec<u64>) { match self { Some(x) => { out.push(1); x.o(out); } None => out.push(0) } } }
 impl<T: Ou> Ou for &T { fn o(&self, out: &mut Vec<u64>) { (*self).o(out) } }
 macro_rules! tup { ($($n:ident),+) => { impl<$($n: P),+> P for ($($n,)+) { fn p(it: &mut It) -> Self { ($($n::p(it),)+) } } impl<$($n: Ou),+> Ou for ($($n,)+) { #[allow(non_snake_case)] fn o(&self, out: &mut Vec<u64>) { let ($($n,)+) = self; $($n.o(out);)+ } } } }
